@@ -32,6 +32,10 @@ def valuations(f):
             doms.append((p, [True, False]))
         elif p in STR_FLAGS:
             doms.append((p, list(STR_FLAGS[p])))
+        elif isinstance(d, ast.Constant) and (d.value is None or isinstance(d.value, (int, float, str))):
+            # an optional parameter that is not one of the documented configuration flags (the property quantifies over
+            # normalize, extrapolate and closure): analysed as every existing caller leaves it, at its default
+            continue
         else:
             raise Unsupported('parameter %s of %s has no declared finite domain' % (p, f.name))
     out = []
